@@ -312,4 +312,27 @@ theorem era_sound (t : Tree) (cur : Node) (status : Nat) (o : Overrides) (params
         · simp [h1] at h
   · simp [hs] at h
 
+/-! ### other checks record exchanges of their own in the same recorder -/
+
+/-- **Probes that were refused never change the verdict.**  `ignored_auth` sends the request again without / with invalid
+    credentials and records those exchanges as children of the case: whatever requests are added to the related set,
+    as long as none of them is a DELETE answered 2xx, the reference verdict for every request stays what it was. -/
+theorem uaf_unchanged_by_refused_probes (rels aux : List Node) (cur : Node) (status : Nat)
+    (h : ∀ n ∈ aux, deleted2xx n = false) :
+    specUAF (rels ++ aux) cur status = specUAF rels cur status := by
+  unfold specUAF
+  have : aux.any (fun n => deleted2xx n && sameResource n.rpath cur.rpath) = false := by
+    rw [List.any_eq_false]
+    intro n hn
+    simp [h n hn]
+  simp [List.any_append, this]
+
+/-- …whereas *overwriting* the recorded answer of the case itself does: DELETE /users/1 answered 204, then the probe's
+    401 stored under the DELETE's id — the later GET /users/1 → 200 is no longer reported. -/
+theorem overwritten_answer_hides_use_after_free :
+    let del (st : Nat) : Node := ⟨0, none, "DELETE".toList, p "/users/{id}" [("id", "1")], some st⟩
+    let get : Node := ⟨1, some 0, "GET".toList, p "/users/{id}" [("id", "1")], some 200⟩
+    specUAF [del 204] get 200 = true ∧ specUAF [del 401] get 200 = false := by
+  decide
+
 end SV.Props.C18
